@@ -1274,3 +1274,23 @@ CONTRACTS[ST + 'stabilizer_state#list'] = dict(
              'forall(a, 0, rows(%s.gs), forall(b, 0, rows(%s.gs), AcqSum(%s.gs[a], %s.gs[b], cols(%s.gs) // 2) %% 2 == 0))' % ((_sso,) * 5)],
     modifies=[], returns=STATE,
 )
+
+# ------------------------------------------------------------------ C12 / C05: the random computational-basis state
+CONTRACTS[ST + 'random_bit_state_gs_ps'] = dict(
+    params=[('N', 'int')], requires=['N >= 0'],
+    ensures=['rows(result[0]) == 2 * N', 'cols(result[0]) == 2 * N', 'len(result[1]) == 2 * N',
+             'forall(i, 0, N, forall(c, 0, 2 * N, result[0][i][c] == b2i(c == 2 * i + 1) and result[0][N + i][c] == b2i(c == 2 * i)))',
+             'forall(k, 0, 2 * N, result[1][k] == 0 or result[1][k] == 2)'],
+    modifies=[], returns=('int2 fresh', 'int1 fresh'),
+    loops={0: dict(var='i', invariant=['rows(gs) == 2 * N', 'cols(gs) == 2 * N',
+                                       'forall(a, 0, i, forall(c, 0, 2 * N, gs[a][c] == b2i(c == 2 * a + 1) and gs[N + a][c] == b2i(c == 2 * a)))',
+                                       'forall(a, i, N, forall(c, 0, 2 * N, gs[a][c] == 0 and gs[N + a][c] == 0))'])},
+)
+CONTRACTS[ST + 'random_bit_state'] = dict(
+    params=[('N', 'int')], requires=['N >= 0'],
+    # a computational-basis state: stabilizers +-Z_i, destabilizers X_i, pure
+    ensures=['rows(result.gs) == 2 * N', 'cols(result.gs) == 2 * N', 'len(result.ps) == 2 * N', 'result.r == 0',
+             'forall(i, 0, N, forall(c, 0, 2 * N, result.gs[i][c] == b2i(c == 2 * i + 1) and result.gs[N + i][c] == b2i(c == 2 * i)))',
+             'forall(k, 0, 2 * N, result.ps[k] == 0 or result.ps[k] == 2)'],
+    modifies=[], returns=STATE,
+)
